@@ -353,6 +353,7 @@ func SimpleOperand(in any) bool {
 //@   ensures[column-quoted] IsColumnVal(in) && err == nil ==> len(ColumnOf(in)) > 0 && !strings.ContainsRune(ColumnOf(in), '"') && verifspec.SameText(s, "\""+ColumnOf(in)+"\"")
 //@   ensures[x-expression-text] IsExprVal(in) ==> s == RenderText(b, ExprOf(in))
 //@   ensures[value-text-nonempty] err == nil && (IsStringVal(in) || IsColumnVal(in) || IsPlainNumber(in) || IsBoundaryVal(in)) ==> s != ""
+//@   assert list-item-goes-through-render before "strs = append(strs, s)": s == RenderText(b, e)
 //@   loop 0: rangeinv true
 
 // IsListVal / ListOf: a holds a list of expressions.
@@ -454,6 +455,12 @@ func LikeParamText(left, right string, regexp bool) string {
 	return left + " SIMILAR TO " + right
 }
 
+// RenderParamText: the SQL RenderParam returns for a node.
+func RenderParamText(b Base, e *expr.Expression) string {
+	s, _, _ := b.RenderParam(e)
+	return s
+}
+
 // SerializeParamsParams: the parameters serializeParams collects for a value.
 func SerializeParamsParams(b Base, in any) []any {
 	_, p, _ := b.serializeParams(in)
@@ -523,6 +530,7 @@ func SerializeParamsText(b Base, in any) string {
 //@   ensures[boundary-errors-propagate] IsBoundaryVal(in) && err == nil ==> SerializeBoundErr(b, BoundaryOf(in).Min) == nil && SerializeBoundErr(b, BoundaryOf(in).Max) == nil
 //@   ensures[string-leaf-is-one-param] err == nil && IsStrLeaf(in) ==> OneStringParam(params, LeafString(in))
 //@   ensures[column-quoted] IsColumnVal(in) && err == nil ==> len(ColumnOf(in)) > 0 && !strings.ContainsRune(ColumnOf(in), '"') && verifspec.SameText(s, "\""+ColumnOf(in)+"\"") && len(params) == 0
+//@   assert list-item-goes-through-renderparam before "strs = append(strs, s)": s == RenderParamText(b, e)
 //@   loop 0: rangeinv true
 
 // ---- validation guards rendering -----------------------------------------------------------------------
